@@ -1,6 +1,7 @@
 import M3d.Basic
 import M3d.Model.Bounded
 import M3d.Model.BoundedPoly
+import M3d.Model.BoundedPolyRect
 /-!
 Line-protocol handler for C03 (core-only).
 
@@ -14,6 +15,10 @@ Line-protocol handler for C03 (core-only).
         `ConvexPolytope.Solid().Contains` of the scaled system has to answer
         (`M3d.C03.polytope_scale_invariant`, `wrapper_does_not_cut_polytope`)
     c03 pvert <f> dim n (nx ny nz m)*n               -> the vertices `Mesh()` enumerates (`meshVerts3/2`), in order
+    c03 prect <q|f> dim lo hi npts pts               -> the requirement for `NewConvexPolytopeRect(lo, hi)`: the constraints
+        `rectCons3/rectCons2`, the box test of `[lo, hi]` per point (`M3d.C03.rect_polytope_contains`), the box `lo hi 1`
+        that `Solid()` has to report (`rect_polytope_mesh_box`; `inv` for an inverted rect), and the box test again for
+        `Solid().Contains` (`wrapper_does_not_cut_polytope_rect`)
 
 All numbers cross the boundary as exact rationals `num/den`; mode `q` runs the model at `Rat`
 (the instance the theorems cover), mode `f` at `Float` (same operations, same order as the Go code).
@@ -409,10 +414,26 @@ def runPolyVerts (N : Num α) (ws : List String) : Option String := do
   let vs := if d3 then meshVerts3 N.sq N.eps cs else meshVerts2 N.sq N.eps cs
   pure s!"{vs.length}{String.join (vs.map fun v => " " ++ showPt N d3 v)}"
 
+/-- `prect`: the requirement for `NewConvexPolytopeRect(lo, hi)`, its half-space test and its `Solid()`. -/
+def runPolyRect (N : Num α) (ws : List String) : Option String := do
+  let (d3, ws) ← pDim ws
+  let (lo, ws) ← pPt N ws
+  let (hi, ws) ← pPt N ws
+  let (npts, ws) ← pNat ws
+  let (pts, ws) ← pMany (pPt N) npts ws
+  if !ws.isEmpty then none
+  let cs := if d3 then rectCons3 lo hi else rectCons2 lo hi
+  let box : Box α := ⟨lo, hi⟩
+  let ans := String.join (pts.map fun p => boolStr (inB d3 box p))
+  let boxStr := if boxValid d3 box then showBox N d3 box ++ " 1" else "inv"
+  let csStr := String.join (cs.map fun l => " " ++ showPt N d3 l.1 ++ " " ++ N.render l.2)
+  pure s!"{cs.length}{csStr} | {ans} | {boxStr} | {ans}"
+
 def handleWith (N : Num α) : List String → Option String
   | "tree" :: ws => runTree N ws
   | "polycut" :: ws => runPolyCut N ws
   | "pvert" :: ws => runPolyVerts N ws
+  | "prect" :: ws => runPolyRect N ws
   | kind :: ws => runPrim N kind ws
   | [] => none
 
